@@ -7,6 +7,7 @@ from twisted.python import log
 from twisted.internet import defer, endpoints, task
 from twisted.application import internet
 from autobahn.twisted import websocket
+from autobahn.exception import Disconnected
 from . import _interfaces, errors
 from .util import (bytes_to_hexstr, hexstr_to_bytes, bytes_to_dict,
                    dict_to_bytes, provides)
@@ -280,7 +281,14 @@ class RendezvousConnector:
         self._debug(f"R.tx({mtype.upper()} {kwargs.get('phase', '')})")
         payload = dict_to_bytes(kwargs)
         self._timing.add("ws_send", _side=self._side, **kwargs)
-        self._ws.sendMessage(payload, False)
+        try:
+            self._ws.sendMessage(payload, False)
+        except Disconnected:
+            # Autobahn has already left the OPEN state (the connection is
+            # being dropped), but has not told us via onClose() yet. Treat
+            # this like a message lost in flight: ws_close() will follow,
+            # and everything unacknowledged is re-sent on the next connection.
+            pass
         # might be nice to have a "debug" hook here to track all
         # messages sent to the mailbox, with timestamps
 
